@@ -48,10 +48,10 @@ BinFreq(fc, k, N, dt) == RAdd(fc, RDiv(RI(FftBin(k, N)), RMul(RI(N), dt)))
 (* difference f - fref is formed exactly first:                            *)
 (*     phase = K DM f (1/fref - 1/f)^2 = K DM (f - fref)^2 / (fref^2 f)    *)
 (* so only products and one quotient remain; with L = BFL = 8 each of the  *)
-(* 12 cuts costs a relative error < 2^-105.  ChirpPhaseFix returns         *)
-(* floor(phase' * 2^75) with                                               *)
-(*     |phase' - phase| <= 2^-101 |phase| + 2^-75   cycles,                *)
-(* i.e. < 2^-60 cycle (1e-18) for |phase| < 2^40, against a comparison     *)
+(* 18 cuts (9 in the numerator, 9 in the denominator) costs a relative     *)
+(* error < 2^-105.  ChirpPhaseFix returns floor(phase' * 2^75) with        *)
+(*     |phase' - phase| <= 2^-100 |phase| + 2^-75   cycles,                *)
+(* i.e. < 2^-59 cycle (2e-18) for |phase| < 2^40, against a comparison     *)
 (* tolerance of 2e-6.  PhaseFixAgrees (checked on sampled events by        *)
 (* Trace_Dedisp and on the lattice by MC_Dedisp) compares it with the      *)
 (* exact ChirpPhase.                                                       *)
@@ -81,9 +81,9 @@ ChirpPhaseFix(kdm, f, fref) ==
 PhaseFixRat(v) == R(v, Pow2(PFBITS))
 PhaseFixAgrees(kdm, f, fref) ==
   RClose(PhaseFixRat(ChirpPhaseFix(kdm, f, fref)), ChirpPhase(kdm, f, fref),
-         RAdd(RPow2(-75), RMul(RAbs(ChirpPhase(kdm, f, fref)), RPow2(-101))))
+         RAdd(RPow2(-75), RMul(RAbs(ChirpPhase(kdm, f, fref)), RPow2(-100))))
 \* an upper bound of  K|DM| |1/fref - 1/f| g 2^s  (g a positive Rat): three
-\* limbs suffice (relative error < 10 * 2^-30), then inflated by 2^-20
+\* limbs suffice (16 cuts, relative error < 2^-26), then inflated by 2^-20
 ChirpSlopeFix(kdm, f, fref, g, s) ==
   LET d == RSub(f, fref)
       M(x, y) == BFMul(x, y, 3)
@@ -95,7 +95,7 @@ ChirpSlopeFix(kdm, f, fref, g, s) ==
 
 \* Sample delay K DM (1/f^2 - 1/fref^2) rate = K DM (fref - f)(fref + f) rate / (f^2 fref^2)
 \* as floor(delay' * 2^45), |delay' - delay| <= 2^-100 |delay| + 2^-45: the
-\* cancelling factor fref - f is exact, the rest are products (cuts to 8 limbs).
+\* cancelling factor fref - f is exact, the rest are products (26 cuts to 8 limbs).
 \* A delay that is at least 1e-6 away from every integer (half-integer) has the
 \* same ceiling (rounding) as this approximation whenever |delay| < 2^50.
 DFBITS == 45
